@@ -32,9 +32,14 @@ func (f *File) Sync() error {
 	if err := f.File.Sync(); err != nil {
 		return err
 	}
-	new := atomic.SwapUint32(&f.new, 1)
-	if new == 0 {
-		return syncDir(f.dir)
+	if atomic.LoadUint32(&f.new) == 0 {
+		// Only mark the directory entry as persisted once the parent dir fsync
+		// has actually succeeded. Otherwise a Sync retried after a failed dir
+		// fsync would report success without the entry ever being made durable.
+		if err := syncDir(f.dir); err != nil {
+			return err
+		}
+		atomic.StoreUint32(&f.new, 1)
 	}
 	return nil
 }
